@@ -25,6 +25,8 @@ struct Acc {
     movekinds: BTreeMap<String, u64>,
     records: u64,
     nontrivial: BTreeMap<String, u64>,
+    boards: Vec<String>,
+    board_keys: BTreeSet<Vec<i64>>,
 }
 
 impl Acc {
@@ -59,6 +61,9 @@ impl Acc {
         }
         self.mism.extend(o.mism);
         self.records += o.records;
+        for b in o.boards {
+            self.boards.push(b);
+        }
     }
 }
 
@@ -171,6 +176,27 @@ fn one_record(rec: &Value, props: &BTreeSet<String>, long: &mut MoveGenerator, a
                 }
                 if after != pos {
                     acc.bad("C04", "generate_moves changed the board", &pos, json!({"after": after.to_json()}));
+                }
+            }
+        }
+    }
+
+    // ---- C12: the board after every legal move of every oracle state, with its redundant summaries,
+    // is logged for TLC (Trace_Records "board": representation invariant, summaries = squares)
+    if has("C12") {
+        for o in &omoves {
+            let r = guarded(|| {
+                let mut board = pos.setup();
+                let m = o.m.to_chess_move(side);
+                if m.apply(&mut board).is_err() {
+                    return None;
+                }
+                Some((Pos::of_board(&board).key(), json!({"t": "board", "obs": obs(&board), "sum": summaries(&board)}).to_string()))
+            });
+            acc.eval("C12", 1);
+            if let Ok(Some((k, line))) = r {
+                if acc.board_keys.insert(k) {
+                    acc.boards.push(line);
                 }
             }
         }
@@ -445,6 +471,17 @@ pub fn main(args: &[String]) {
         }
     });
     let t = total.into_inner().unwrap();
+    if let Some(bp) = arg_val(args, "--boards-out") {
+        use std::io::Write;
+        let mut f = std::io::BufWriter::new(std::fs::File::create(bp).unwrap());
+        let mut seen = BTreeSet::new();
+        for b in t.boards.iter() {
+            if seen.insert(b.clone()) {
+                writeln!(f, "{}", b).unwrap();
+            }
+        }
+        f.flush().unwrap();
+    }
     let mut out = Map::new();
     out.insert("records".into(), json!(t.records));
     out.insert("evaluations".into(), json!(t.evals));
